@@ -1,6 +1,6 @@
 """Rule primitives K3..K11 as reusable helpers. Each helper registers obligations on the Report and
 returns the truth value; a missing anchor fails closed."""
-import json, os
+import json, os, re
 from core import *
 import sends as sendsmod
 
@@ -211,6 +211,77 @@ class Ctx:
             for (fld, dirn, bb, line, atoms) in field_ops(self, g, adt, [field], slicer=self.S):
                 out.append((g, dirn, bb, line, self.expand_params(g, atoms)))
         return out
+
+    # ------------------------------------------------------------------ K12 accumulators
+    AMOUNT_TYPES = ('fvm_shared::econ::TokenAmount', 'num_bigint::bigint::BigInt', 'partition_state::PowerPair', 'fil_actor_miner::partition_state::PowerPair')
+
+    def accumulator_integrity(self, rule, key, crates, what):
+        """A running total must keep running: a local of an amount type (TokenAmount, BigInt = DataCap / StoragePower, PowerPair)
+        that starts at zero outside a loop and is re-defined inside the loop must be defined there from its own previous value
+        (`t += x`, `t = t + x`, `t = f(t.clone(), x)`); a plain overwrite (`t = x`) makes the last iteration win and loses every
+        earlier contribution.  Covers locals and variables captured by a closure that loops.  No instance exists on the pinned
+        tree (the repo always accumulates with `+=`), so every report is a change; the rule is independent of the variable's name,
+        the loop's form (for / while / iterator closure body) and of where the total is used afterwards."""
+        bad = []
+        n_checked = 0
+        for f in self.prog.bodies():
+            if f.crate not in crates or f.kind not in ('fn', 'assocfn', 'closure'):
+                continue
+            lb = None
+            # (A) locals of f
+            for l, dsl in list(f.defs.items()):
+                if l <= f.nargs or l >= len(f.locals) or f.locals[l][0] not in self.AMOUNT_TYPES:
+                    continue
+                ds = [d for d in dsl if (d[0] == '=' and not d[3][1]) or d[0] == 'call']
+                if len(ds) < 2:
+                    continue
+                if lb is None:
+                    lb = loop_blocks(f)
+                if not lb:
+                    break
+                zeros = [d for d in ds if _is_zero_def(self.prog, f, d)]
+                others = [d for d in ds if d not in zeros and d[1] in lb]
+                if not zeros or not others:
+                    continue
+                n_checked += 1
+                for d in others:
+                    # inside a loop that does not re-run the zero initialisation (the total spans that loop's iterations)
+                    if not any(_on_cycle_avoiding(f, d[1], z[1]) for z in zeros):
+                        continue
+                    ops = [d[4]] if d[0] == '=' else list(d[2].args)
+                    if not _reaches_local(f, ops, ('l', l), rv=(d[0] == '=')):
+                        line = f.blocks[d[1]]['s'][d[2]][3] if d[0] == '=' else d[2].line
+                        bad.append((f, d[1], line, f.name_of(l)))
+            # (B) variables captured by mutable reference, re-assigned inside a loop of the closure
+            if f.kind == 'closure':
+                par = self.prog.fns.get(f.parent)
+                ups = {}
+                for d in f.defs.get(1, []):
+                    if d[0] == '=' and d[3][1]:
+                        fs = [p for p in d[3][1] if isinstance(p, list) and p[0] == 'f']
+                        if len(fs) == 1 and fs[0][2].startswith('closure:') and all(p == '*' or p is fs[0] for p in d[3][1]):
+                            ups.setdefault(fs[0][1], []).append(d)
+                if ups and par is not None:
+                    if lb is None:
+                        lb = loop_blocks(f)
+                    for idx, dsl in ups.items():
+                        pl = _captured_local(par, f.id, idx)
+                        if pl is None or pl >= len(par.locals) or par.locals[pl][0] not in self.AMOUNT_TYPES:
+                            continue
+                        pds = [d for d in par.defs.get(pl, []) if (d[0] == '=' and not d[3][1]) or d[0] == 'call']
+                        if not any(_is_zero_def(self.prog, par, d) for d in pds):
+                            continue
+                        n_checked += 1
+                        for d in dsl:
+                            if d[1] in lb and not _reaches_local(f, [d[4]], ('u', idx), rv=True):
+                                bad.append((f, d[1], f.blocks[d[1]]['s'][d[2]][3] if d[2] < len(f.blocks[d[1]]['s']) else f.line, par.name_of(pl)))
+        for (f, bb, line, name) in bad:
+            self.rep.ob(rule, '%s:%s:%s' % (key, f.id.split('::', 1)[-1], name), False,
+                        '%s: `%s` starts at zero and is overwritten inside a loop by a value that does not include its previous value (last iteration wins)' % (what, name), '%s:%s' % (f.blocks[bb].get('file', f.file), line))
+        if not bad:
+            self.rep.ob(rule, key, True, '%s: %d zero-initialised running totals re-defined in loops, each from its own previous value' % (what, n_checked))
+        self.rep.count('running_totals_in_loops:' + key, n_checked)
+        return not bad
 
     # ------------------------------------------------------------------ K6 guards
     @staticmethod
@@ -802,6 +873,164 @@ def send_to(prog, to_pats=(), method_pats=(), nonzero=None):
             return False
         return True
     return p
+
+
+# ---------------------------------------------------------------------- running totals
+def loop_blocks(f):
+    """blocks of f that lie on a CFG cycle (normal edges)"""
+    if getattr(f, '_loopblocks', None) is not None:
+        return f._loopblocks
+    n = len(f.blocks)
+    succ = [[t for (t, _l) in f.succ[i]] for i in range(n)]
+    idx, low, st, on, out = {}, {}, [], set(), set()
+    counter = [0]
+    for root in range(n):
+        if root in idx or f.blocks[root].get('cleanup'):
+            continue
+        work = [(root, 0)]
+        while work:
+            v, i = work.pop()
+            if i == 0:
+                idx[v] = low[v] = counter[0]
+                counter[0] += 1
+                st.append(v)
+                on.add(v)
+            recurse = False
+            while i < len(succ[v]):
+                w = succ[v][i]
+                i += 1
+                if w not in idx:
+                    work.append((v, i))
+                    work.append((w, 0))
+                    recurse = True
+                    break
+                elif w in on:
+                    low[v] = min(low[v], idx[w])
+            if recurse:
+                continue
+            if low[v] == idx[v]:
+                comp = []
+                while True:
+                    w = st.pop()
+                    on.discard(w)
+                    comp.append(w)
+                    if w == v:
+                        break
+                if len(comp) > 1 or v in succ[v]:
+                    out.update(comp)
+            if work:
+                u = work[-1][0]
+                low[u] = min(low[u], low[v])
+    f._loopblocks = out
+    return out
+
+
+def _on_cycle_avoiding(f, b, avoid):
+    """block b lies on a CFG cycle that does not pass through block `avoid`"""
+    if b == avoid:
+        return False
+    r = f.reach([t for (t, _l) in f.succ[b]], blocked={avoid}, use_flags=False)
+    return b in r
+
+
+def _is_zero_def(prog, f, d):
+    if d[0] == 'call':
+        c = d[2]
+        n = (c.callee or c.defp or '')
+        return bool(re.search(r'::(zero|default|new)$', n)) and not c.args
+    rv = d[4]
+    if rv[0] == 'use' and rv[1][0] == 'k':
+        k = rv[1][1]
+        return str(k.get('val')) == '0' or str(k.get('def', '')).endswith('::ZERO')
+    if rv[0] == 'agg' and rv[1].get('k') == 'adt':
+        # PowerPair { raw: zero, qa: zero } style literals
+        return all(o[0] in ('m', 'c') and any(_is_zero_def(prog, f, dd) for dd in f.defs.get(o[1][0], []) if dd[0] in ('=', 'call')) for o in rv[2]) and bool(rv[2])
+    return False
+
+
+def _captured_local(par, closure_id, idx):
+    """the local of the enclosing function that closure `closure_id` captures by mutable reference as upvar idx"""
+    for b in par.blocks:
+        for st in b['s']:
+            if st[0] == '=' and st[2][0] == 'agg' and st[2][1].get('k') == 'closure' and st[2][1]['def'] == closure_id and idx < len(st[2][2]):
+                o = st[2][2][idx]
+                if o[0] in ('m', 'c') and not o[1][1]:
+                    for d in par.defs.get(o[1][0], []):
+                        if d[0] == '=' and d[4][0] == 'ref' and d[4][1] == 'mut' and not d[4][2][1]:
+                            return d[4][2][0]
+    return None
+
+
+_VALUE_TY = re.compile(r'TokenAmount|BigInt|PowerPair|DataCap|StoragePower|^&?(mut )?[iu](8|16|32|64|128|size)$|^bool$|^\(\)$')
+
+
+def _reaches_local(f, ops, target, rv=False, limit=4000):
+    """does the value computed from `ops` depend (through the def-use chains of f) on the current value of `target`
+    (('l', local) or ('u', upvar index of a closure))"""
+    seen = set()
+    work = []
+
+    def push_operand(o):
+        if isinstance(o, list) and o and o[0] in ('c', 'm'):
+            push_place(o[1])
+
+    def push_place(pl):
+        if target[0] == 'u' and pl[0] == 1:
+            fs = [p for p in pl[1] if isinstance(p, list) and p[0] == 'f']
+            if fs and fs[0][2].startswith('closure:') and fs[0][1] == target[1]:
+                work.append('HIT')
+                return
+        work.append(pl[0])
+        for p in pl[1]:
+            if isinstance(p, list) and p[0] == 'i':
+                work.append(p[1])
+
+    def push_rvalue(r):
+        k = r[0]
+        if k == 'use':
+            push_operand(r[1])
+        elif k in ('ref', 'rawptr'):
+            push_place(r[2])
+        elif k in ('cfd', 'discr'):
+            push_place(r[1])
+        elif k == 'cast':
+            push_operand(r[2])
+        elif k == 'bin':
+            push_operand(r[2]); push_operand(r[3])
+        elif k == 'un':
+            push_operand(r[2])
+        elif k == 'agg':
+            for o in r[2]:
+                push_operand(o)
+        elif k == 'repeat':
+            push_operand(r[1])
+    for o in ops:
+        if rv:
+            push_rvalue(o)
+        else:
+            push_operand(o)
+    steps = 0
+    while work and steps < limit:
+        steps += 1
+        x = work.pop()
+        if x == 'HIT':
+            return True
+        if target[0] == 'l' and x == target[1]:
+            return True
+        if x in seen:
+            continue
+        seen.add(x)
+        # dependence is followed through amount-like values only (amounts, big integers, power pairs, machine integers and
+        # wrappers of them); a state object, store or runtime handle that *also* saw the total is not a carrier of its value
+        if x < len(f.locals) and not _VALUE_TY.search(f.locals[x][0] or ''):
+            continue
+        for d in f.defs.get(x, []):
+            if d[0] == '=':
+                push_rvalue(d[4])
+            elif d[0] in ('call', 'mutcall'):
+                for a in d[2].args:
+                    push_operand(a)
+    return False
 
 
 # ---------------------------------------------------------------------- memo operations
